@@ -9,6 +9,24 @@ kind == "fuzz": native go fuzzing (thorough only): fuzz (target), fuzztime.
 Q, T = "quick", "thorough"
 
 PROPS = {
+    "C15": {"engines": [
+        {"name": "frrk8s-witness", "pkg": "internal/bgp/frrk8s", "run": "^TestVerifC15Witness$", "rapid": False,
+         "checks": {Q: 1, T: 1}, "shards": {Q: 1, T: 1}},
+        {"name": "password", "pkg": "speaker", "run": "^TestVerifC15Password$",
+         "checks": {Q: 2000, T: 20000}, "shards": {Q: 1, T: 2}},
+        {"name": "frrk8s-config", "pkg": "internal/bgp/frrk8s", "run": "^TestVerifC15Config$",
+         "checks": {Q: 3000, T: 320000}, "shards": {Q: 2, T: 16}},
+    ]},
+    "C14": {"engines": [
+        {"name": "frr-config", "pkg": "internal/bgp/frr", "run": "^TestVerifC14Config$",
+         "checks": {Q: 3000, T: 320000}, "shards": {Q: 2, T: 16}},
+    ]},
+    "C13": {"engines": [
+        {"name": "histories", "pkg": "internal/layer2", "run": "^TestVerifC13Histories$",
+         "checks": {Q: 10000, T: 1600000}, "shards": {Q: 2, T: 16}},
+        {"name": "concurrent", "pkg": "internal/layer2", "run": "^TestVerifC13Concurrent$", "race": True,
+         "checks": {Q: 200, T: 8000}, "shards": {Q: 2, T: 8}},
+    ]},
     "C05": {"engines": [
         {"name": "speaker", "pkg": "speaker", "run": "^TestVerifC05Spk$",
          "checks": {Q: 6000, T: 800000}, "shards": {Q: 4, T: 16}},
